@@ -108,6 +108,8 @@ def run():
                           "EgoCore_Prog MC")
             chk.add_tlc(r, "EgoCore_Prog: corpus enumerated, expected output per mode computed, theorems checked")
             cases = ec.cases_of(r)
+            if os.environ.get("VERIF_C01_FAMS"):         # offline aid, with VERIF_C01_ALL: only these families
+                cases = [c for c in cases if c["fam"] in os.environ["VERIF_C01_FAMS"].split(",")]
             if len(cases) < 200:
                 raise vf.NoVerdict("generator too weak: %d programs" % len(cases))
             legal, ngo = go_crosscheck(chk, sd, cases)
